@@ -107,6 +107,13 @@ func (s *csrSuite) newWorld(withTurnstile, huge bool) {
 			s.coded = append(s.coded, c)
 		}
 		s.coded = append(s.coded, s.ts, s.ts2, s.factory)
+		if huge {
+			// a record as a genesis import may contain it: revenue next to 2^256, transaction count next to 2^64
+			c := s.callers[len(s.callers)-1]
+			s.callers = s.callers[:len(s.callers)-1]
+			rev := sdkmath.NewIntFromBigInt(new(big.Int).Sub(new(big.Int).Lsh(big.NewInt(1), 256), big.NewInt(int64(1+s.r.Intn(2000)))))
+			w.App.CSRKeeper.SetCSR(w.Ctx, csrtypes.CSR{Contracts: []string{c.String()}, Id: 9, Txs: math.MaxUint64 - uint64(s.r.Intn(3)), Revenue: rev})
+		}
 	} else {
 		// CSR enabled by parameter but no Turnstile ever deployed (BeginBlock has not run)
 		p := w.App.CSRKeeper.GetParams(w.Ctx)
@@ -158,6 +165,9 @@ func (s *csrSuite) randShare(invalidToo bool) sdkmath.LegacyDec {
 		default:
 			return sdkmath.LegacyDec{}
 		}
+	}
+	if s.huge && r.Intn(2) == 0 { // large shares make large fees reach the LegacyDec range
+		return []sdkmath.LegacyDec{one, one.Sub(eps), sdkmath.LegacyNewDecWithPrec(95, 2), sdkmath.LegacyNewDecWithPrec(8, 1)}[r.Intn(4)]
 	}
 	switch r.Intn(10) {
 	case 0:
@@ -617,7 +627,7 @@ func (s *csrSuite) opHook(genuine []*ethtypes.Log, to *common.Address) int {
 		to = s.pickTo(v, logs)
 	}
 	gu, gp := s.genGasUsed(), s.genGasPrice()
-	if s.huge && r.Intn(12) == 0 { // a fee next to the LegacyDec range: 2^255 .. 1.25 * 2^255
+	if s.huge && r.Intn(6) == 0 { // a fee next to the LegacyDec range: 2^255 .. 1.25 * 2^255
 		gu, gp = 1<<63, pow2(192).Add(r.Big(190)).BigInt()
 	}
 	n := 0
@@ -706,7 +716,11 @@ func (s *csrSuite) opParams() int {
 	if !w.App.CSRKeeper.GetParams(w.Ctx).EnableCsr {
 		en = r.Intn(8) != 0 || en // a disabled module is mostly switched on again
 	}
-	share := s.randShare(true)
+	return s.updateParams(auth, authTok, en, s.randShare(true))
+}
+
+func (s *csrSuite) updateParams(auth string, authTok int, en bool, share sdkmath.LegacyDec) int {
+	w := s.w
 	shareTok := "nil"
 	if !share.IsNil() {
 		shareTok = share.BigInt().String()
@@ -752,6 +766,36 @@ func (s *csrSuite) opFund() int {
 	return 1
 }
 
+// edgeScenario (worlds with a 1.5 * 2^255 supply): share 1, a freshly registered contract, and fees exactly at, above and
+// below the point where LegacyNewDecFromInt(fee).Mul(share) leaves the 315-bit range (fee * 10^18 >= 2^315).
+func (s *csrSuite) edgeScenario() int {
+	w := s.w
+	n := s.updateParams(authtypes.NewModuleAddress(govtypes.ModuleName).String(), 1, true, sdkmath.LegacyOneDec())
+	v := s.view()
+	un := s.unregisteredCoded(v)
+	if len(un) == 0 {
+		return n
+	}
+	c := un[0]
+	ev := contracts.TurnstileContract.ABI.Events[csrtypes.TurnstileEventRegister]
+	data, err := ev.Inputs.Pack(c, common.BytesToAddress(w.Users[2].Bytes()), s.pickID(v, false))
+	if err != nil {
+		panic(err)
+	}
+	s.runHook(&c, 0, big.NewInt(1), []*ethtypes.Log{{Address: s.ts, Topics: []common.Hash{ev.ID}, Data: data}})
+	n++
+	bound := new(big.Int).Lsh(big.NewInt(1), 315)
+	feeB := new(big.Int).Div(bound, pow10(18).BigInt())
+	feeB.Add(feeB, big.NewInt(1)) // the least fee with fee * 10^18 >= 2^315 (2^315 is not a multiple of 10^18)
+	s.opSend(w.Users[0], s.fcAddr(), s.denom, sdkmath.NewIntFromBigInt(feeB).AddRaw(int64(5+s.r.Intn(100))))
+	n++
+	for _, d := range []int64{1, 0, -1} {
+		s.runHook(&c, 1, new(big.Int).Add(feeB, big.NewInt(d)), nil)
+		n++
+	}
+	return n
+}
+
 func init() { suites["csr"] = runCsr }
 
 func runCsr(seed uint64, nOps int, outPath string) map[string]int {
@@ -769,6 +813,9 @@ func runCsr(seed uint64, nOps int, outPath string) map[string]int {
 		budget := 170
 		if !withTs {
 			budget = 12
+		}
+		if withTs && s.huge {
+			done += s.edgeScenario()
 		}
 		for i := 0; i < budget && done < nOps; {
 			var n int
